@@ -470,6 +470,24 @@ fn judge_select_result(
             (candidates.get(*index), Some(*index))
         }
         SelectReply::Scripted { index, target } => (Some(target), Some(*index)),
+        SelectReply::Slow { index, .. } => {
+            if let Some((_, true)) = recorded {
+                return;
+            }
+            (candidates.get(*index), Some(*index))
+        }
+        SelectReply::Status { code } => {
+            // the service made no choice: whatever select() returns as a target is invented
+            if let Ok(got) = result {
+                f.add(
+                    clause,
+                    "service-failure-turned-into-an-answer",
+                    &format!("select() returns Ok although the Strategy service failed the call with {code}"),
+                    json!({ "status": code, "returned": got.as_ref().map(model_json) }),
+                );
+            }
+            return;
+        }
     };
     let Some(exp) = expected else {
         match result {
